@@ -93,9 +93,16 @@ func c19Inputs(seed uint64, p c19Params, src string) []toolInput {
 		}
 		ins = append(ins, in)
 	}
-	for i := 0; i < p.gen/10; i++ {
-		in := genLRRecovery(r)
+	for i := 0; i < p.gen/10+lrShapeCount; i++ {
+		// every special shape once (names that collide once digits are appended,
+		// left recursion under recovery, null cycles, ...), then drawn ones
+		in := genLRRecoveryN(r, i)
 		in.Flags = drawFlags(r, in.Rules, true)
+		if i < lrShapeCount {
+			// as written: the optimizer would remove the rules nobody references,
+			// and -x would write nothing
+			in.Flags = removeArgs(removeArgs(in.Flags, "-optimize-grammar", 1), "-x", 1)
+		}
 		ins = append(ins, in)
 	}
 	// library-style double builds of a third of the inputs so far
